@@ -548,6 +548,15 @@ class View:
     def __setitem__(self, idx, v):
         if not isinstance(idx, tuple):
             idx = (idx,)
+        if hasattr(v, "data") and isinstance(getattr(v, "data"), list) and not isinstance(v, CInt):
+            # memoryview row assignment `a[i] = other_view`: element-wise copy
+            k = self._norm(idx[0], len(self.data)) if len(idx) == 1 and not isinstance(idx[0], slice) else None
+            if isinstance(k, int) and isinstance(self.data[k], list):
+                if len(self.data[k]) != len(v.data):
+                    raise ValueError("memoryview assignment: shape mismatch")
+                self.data[k] = [coerce(self.t, x) for x in v.data]
+                return
+            raise Escape("view-to-view assignment of this shape")
         if self.t is not None:
             v = coerce(self.t, v) if not isinstance(v, list) else v
         self._set(self.data, idx, v)
